@@ -8,6 +8,7 @@ DRIVER = 'c10'
 IMPL = 'harness/impl/c10_impl.py'
 ALLOWED_AXIOMS = []
 IMPL_TIMEOUT = 6000
+ESCALATE_CAP = 90
 ASSUMPTIONS = [
     'theorems are about coq/Model/Multisig.v: lib_cosigner_order / lib_wallet_redeemscript / lib_script_hash mirror '
     'Wallet.create and Wallet._new_key_multisig; ms_sign_input / ms_verify_run / ms_channel mirror Transaction.sign, '
@@ -25,12 +26,28 @@ ASSUMPTIONS = [
     'positions shares its public_key attribute; the tags of such duplicated signatures are excluded from the comparison',
     'sha256 / hash160 in the extracted model are the executable Gallina transcriptions of Crypto/ (validated against '
     'hashlib by the crypto self-test); same_address_all_cosigners is proved for arbitrary hash functions',
+    'committed fields: lib_create_fields mirrors the locktime / sequence / change rules of Wallet.transaction_create for '
+    'an explicit integer fee (automatic fee estimation, the random split of several change outputs and their minimum '
+    'size are not modelled: only number and sum of the change outputs are compared); ms_channel_fields mirrors what '
+    'transaction_import(object / dict) and transaction_import_raw rebuild; outpoints, script codes and destinations are '
+    'abstract names in the model, the bytes are checked by the property-level oracle of the harness',
+    'property-level oracle: own BIP144 parser, own legacy / BIP143 signature hash, own secp256k1 ECDSA verification and '
+    'OP_CHECKMULTISIG evaluation, network constants frozen in harness/props/c10.py (Bitcoin Core / Litecoin / Dogecoin '
+    'chainparams; bitcoinlib_test is the library\'s own offline network); the unspent outputs are handed to every '
+    'cosigner wallet by utxos_update(utxos=...) (two per address, 1 coin + 0.01 per row + 0.0001 per ordinal, so that no '
+    'two inputs carry the same amount; 10 confirmations) or, for the select_inputs cases, come from the offline '
+    'provider (1 coin each); block height 1',
 ]
 RULE = ('every m-of-n (n <= 3 quick, n <= 5 thorough), three wallet kinds, every cosigner holding its own private key '
-        'in its own wallet, supplied-key permutations (exhaustive agreement cases n <= 3), signing orders x hand-off '
-        'chains over {object, dict, raw} (sampled quick, exhaustive n <= 3 thorough), 1 and 2 inputs, repeated signers, '
-        'unsigned hand-off, sort_keys off; a ceremony is non-trivial when all wallets were created and at least one '
-        'observation was produced; distinct by request')
+        'in its own wallet, supplied-key permutations (exhaustive agreement cases n <= 3), keys supplied as HDKey objects / '
+        'WIF strings, master or account level, private or public; networks bitcoinlib_test, bitcoin, testnet, litecoin, '
+        'dogecoin; address rows beyond index 0 and on the change branch; cosigner_id given or derived; signing orders x '
+        'hand-off chains over {object, dict, raw} (sampled quick, exhaustive n <= 3 thorough); every chain with its own '
+        'spend: replace_by_fee, locktime (none / height / time), anti_fee_sniping per wallet, fee, 1-3 outputs of four '
+        'script types, 0-3 change outputs, 1-3 inputs from 1-3 address rows, explicit or selected inputs (min_confirms at '
+        'and above the boundary); repeated signers, unsigned hand-off, sort_keys off; after the create op and after '
+        'EVERY sign / hand-off / send the serialised transaction is parsed and compared field by field; a ceremony is '
+        'non-trivial when all wallets were created and at least one observation was produced; distinct by request')
 
 NET_P2SH = 0x95
 NET_HRP = 'blt'
@@ -44,29 +61,86 @@ G = (0x79BE667EF9DCBBAC55A06295CE870B07029BFCDB2DCE28D959F2815B16F81798,
      0x483ADA7726A3C4655DA4FBFC0E1108A8FD17B448A68554199C47D08FFB10D4B8)
 
 
-def _add(a, b):
-    if a is None:
-        return b
-    if b is None:
-        return a
-    if a[0] == b[0]:
-        if (a[1] + b[1]) % P == 0:
-            return None
-        l = 3 * a[0] * a[0] * pow(2 * a[1], -1, P) % P
-    else:
-        l = (b[1] - a[1]) * pow(b[0] - a[0], -1, P) % P
-    x = (l * l - a[0] - b[0]) % P
-    return (x, (l * (a[0] - x) - a[1]) % P)
+def _jdbl(p):
+    x, y, z = p
+    if not y:
+        return (0, 0, 0)
+    ys = y * y % P
+    s4 = 4 * x * ys % P
+    m3 = 3 * x * x % P
+    nx = (m3 * m3 - 2 * s4) % P
+    return (nx, (m3 * (s4 - nx) - 8 * ys * ys) % P, 2 * y * z % P)
+
+
+def _jadd(p, q):
+    if not p[2]:
+        return q
+    if not q[2]:
+        return p
+    z1s, z2s = p[2] * p[2] % P, q[2] * q[2] % P
+    u1, u2 = p[0] * z2s % P, q[0] * z1s % P
+    s1, s2 = p[1] * z2s * q[2] % P, q[1] * z1s * p[2] % P
+    if u1 == u2:
+        return _jdbl(p) if s1 == s2 else (0, 0, 0)
+    h, r = (u2 - u1) % P, (s2 - s1) % P
+    h2 = h * h % P
+    h3, v = h * h2 % P, u1 * h2 % P
+    nx = (r * r - h3 - 2 * v) % P
+    return (nx, (r * (v - nx) - s1 * h3) % P, h * p[2] * q[2] % P)
+
+
+def _affine(p):
+    if not p[2]:
+        return None
+    zi = pow(p[2], -1, P)
+    return (p[0] * zi * zi % P, p[1] * zi * zi * zi % P)
+
+
+def _jmul(k, pt):
+    r = (0, 0, 0)
+    q = (pt[0], pt[1], 1)
+    while k:
+        if k & 1:
+            r = _jadd(r, q)
+        q = _jdbl(q)
+        k >>= 1
+    return r
 
 
 def _mul(k, pt=G):
-    r = None
-    while k:
-        if k & 1:
-            r = _add(r, pt)
-        pt = _add(pt, pt)
-        k >>= 1
-    return r
+    return _affine(_jmul(k % N, pt))
+
+
+def point_of(pub):
+    """SEC1 compressed / uncompressed public key -> affine point (None when not on the curve)"""
+    if len(pub) == 33 and pub[0] in (2, 3):
+        x = int.from_bytes(pub[1:], 'big')
+        y = pow((x * x * x + 7) % P, (P + 1) // 4, P)
+        if (y * y - x * x * x - 7) % P:
+            return None
+        return (x, y if (y & 1) == (pub[0] & 1) else P - y)
+    if len(pub) == 65 and pub[0] == 4:
+        x, y = int.from_bytes(pub[1:33], 'big'), int.from_bytes(pub[33:], 'big')
+        return (x, y) if (y * y - x * x * x - 7) % P == 0 else None
+    return None
+
+
+_VERIFY_CACHE = {}
+
+
+def ecdsa_verify(pub, z, r, s_):
+    """SEC1 4.1.4"""
+    key = (pub, z, r, s_)
+    if key in _VERIFY_CACHE:
+        return _VERIFY_CACHE[key]
+    ok = False
+    q = point_of(pub)
+    if q is not None and 0 < r < N and 0 < s_ < N:
+        w = pow(s_, -1, N)
+        pt = _affine(_jadd(_jmul(z * w % N, G), _jmul(r * w % N, q)))
+        ok = pt is not None and pt[0] % N == r
+    _VERIFY_CACHE[key] = ok
+    return ok
 
 
 def pub_of(d):
@@ -95,20 +169,37 @@ def derive(seed, path):
     return pub_of(d)
 
 
-def account_path(kind):
+def account_path(kind, coin=COIN):
     if kind == 'L':
         return [(45, True)]
-    return [(48, True), (COIN, True), (0, True), (1 if kind == 'P' else 2, True)]
+    return [(48, True), (coin, True), (0, True), (1 if kind == 'P' else 2, True)]
 
 
-def child_path(kind, cpath, idx):
+def child_path(kind, cpath, idx, change=0, coin=COIN):
     if kind == 'L':
-        return [(45, True), (cpath, False), (0, False), (idx, False)]
-    return account_path(kind) + [(0, False), (idx, False)]
+        return [(45, True), (cpath, False), (change, False), (idx, False)]
+    return account_path(kind, coin) + [(change, False), (idx, False)]
 
 
-def path_text(kind, cpath, idx):
-    return '/'.join(('%d\'' % i) if h else str(i) for i, h in child_path(kind, cpath, idx))
+def path_text(kind, cpath, idx, change=0, coin=COIN):
+    return '/'.join(('%d\'' % i) if h else str(i) for i, h in child_path(kind, cpath, idx, change, coin))
+
+
+_ACCT_CACHE = {}
+
+
+def derive_child(seed, kind, cpath, idx, change=0, coin=COIN):
+    """child public key; the private key of the last hardened level is kept per (seed, kind, coin)"""
+    key = (seed, kind, coin)
+    if key not in _ACCT_CACHE:
+        d, c = bip32_master(seed)
+        for (i, hard) in account_path(kind, coin):
+            d, c = bip32_ckd(d, c, i, hard)
+        _ACCT_CACHE[key] = (d, c)
+    d, c = _ACCT_CACHE[key]
+    for (i, hard) in child_path(kind, cpath, idx, change, coin)[len(account_path(kind, coin)):]:
+        d, c = bip32_ckd(d, c, i, hard)
+    return pub_of(d)
 
 
 B58 = '123456789ABCDEFGHJKLMNPQRSTUVWXYZabcdefghijkmnopqrstuvwxyz'
@@ -177,6 +268,241 @@ def spec_address(kind, script):
     return address_of_hash(kind, h160(b'\x00\x20' + w))
 
 
+# ---------------------------------------------------------------- networks (frozen: chainparams of the coins)
+#            name              p2pkh  p2sh  bech32 hrp  BIP44 coin type
+NETWORKS = {'bitcoinlib_test': (0x90, 0x95, 'blt', 9999999),      # the library's own offline network
+            'bitcoin':         (0x00, 0x05, 'bc', 0),
+            'testnet':         (0x6f, 0xc4, 'tb', 1),
+            'litecoin':        (0x30, 0x32, 'ltc', 2),
+            'dogecoin':        (0x1e, 0x16, None, 3)}
+UTXO_VALUE = 100000000       # the offline provider: two unspent outputs of 1 coin per address, 10 confirmations,
+UTXO_CONFIRMS = 10           # block height 1
+BLOCKCOUNT = 1
+DUST = 1000
+SEQ_FINAL, SEQ_LOCKTIME, SEQ_RBF = 0xffffffff, 0xfffffffe, 0xfffffffd
+
+
+def net_address_of_hash(nw, kind, h):
+    p2pkh, p2sh, hrp, _ = NETWORKS[nw]
+    return bech32_v0(hrp, h) if kind == 'S' else b58check(bytes([p2sh]) + h)
+
+
+def net_spec_address(nw, kind, script):
+    if kind == 'L':
+        return net_address_of_hash(nw, kind, h160(script))
+    w = hashlib.sha256(script).digest()
+    if kind == 'S':
+        return net_address_of_hash(nw, kind, w)
+    return net_address_of_hash(nw, kind, h160(b'\x00\x20' + w))
+
+
+def spec_spk(kind, script):
+    """scriptPubKey of the address of a redeem script: P2SH, P2SH-P2WSH, P2WSH (BIP16 / BIP141)"""
+    if kind == 'L':
+        return b'\xa9\x14' + h160(script) + b'\x87'
+    w = hashlib.sha256(script).digest()
+    if kind == 'S':
+        return b'\x00\x20' + w
+    return b'\xa9\x14' + h160(b'\x00\x20' + w) + b'\x87'
+
+
+def destination(nw, typ, h):
+    """(address text, scriptPubKey) of an external destination; typ: k p2pkh, s p2sh, w p2wpkh, W p2wsh"""
+    p2pkh, p2sh, hrp, _ = NETWORKS[nw]
+    if typ == 'k':
+        return b58check(bytes([p2pkh]) + h[:20]), b'\x76\xa9\x14' + h[:20] + b'\x88\xac'
+    if typ == 's':
+        return b58check(bytes([p2sh]) + h[:20]), b'\xa9\x14' + h[:20] + b'\x87'
+    if typ == 'w':
+        return bech32_v0(hrp, h[:20]), b'\x00\x14' + h[:20]
+    return bech32_v0(hrp, h[:32]), b'\x00\x20' + h[:32]
+
+
+# ---------------------------------------------------------------- independent transaction reader (BIP144) and
+#                                                                  signature hashes (legacy, BIP143)
+def _varint(b, o):
+    v = b[o]
+    if v < 0xfd:
+        return v, o + 1
+    if v == 0xfd:
+        return int.from_bytes(b[o + 1:o + 3], 'little'), o + 3
+    if v == 0xfe:
+        return int.from_bytes(b[o + 1:o + 5], 'little'), o + 5
+    return int.from_bytes(b[o + 1:o + 9], 'little'), o + 9
+
+
+def _ser_varint(n):
+    if n < 0xfd:
+        return bytes([n])
+    if n <= 0xffff:
+        return b'\xfd' + n.to_bytes(2, 'little')
+    if n <= 0xffffffff:
+        return b'\xfe' + n.to_bytes(4, 'little')
+    return b'\xff' + n.to_bytes(8, 'little')
+
+
+_PARSE_CACHE = {}
+
+
+def parse_tx(hexs):
+    """dict(version, locktime, segwit, ins [(txid as shown, n, scriptSig, sequence)], outs [(value, script)], wit);
+    None when the bytes are not one well-formed transaction"""
+    if hexs in _PARSE_CACHE:
+        return _PARSE_CACHE[hexs]
+    r = None
+    try:
+        b = bytes.fromhex(hexs)
+        o = 4
+        ver = int.from_bytes(b[0:4], 'little')
+        segwit = b[4] == 0 and b[5] == 1
+        if segwit:
+            o = 6
+        nin, o = _varint(b, o)
+        ins = []
+        for _ in range(nin):
+            txid = b[o:o + 32][::-1].hex()
+            n = int.from_bytes(b[o + 32:o + 36], 'little')
+            l, o = _varint(b, o + 36)
+            ins.append((txid, n, b[o:o + l], int.from_bytes(b[o + l:o + l + 4], 'little')))
+            o += l + 4
+        nout, o = _varint(b, o)
+        outs = []
+        for _ in range(nout):
+            v = int.from_bytes(b[o:o + 8], 'little')
+            l, o = _varint(b, o + 8)
+            outs.append((v, b[o:o + l]))
+            o += l
+        wit = []
+        if segwit:
+            for _ in range(nin):
+                cnt, o = _varint(b, o)
+                items = []
+                for _ in range(cnt):
+                    l, o = _varint(b, o)
+                    items.append(b[o:o + l])
+                    o += l
+                wit.append(items)
+        lt = int.from_bytes(b[o:o + 4], 'little')
+        if o + 4 == len(b) and nin > 0:
+            r = dict(version=ver, locktime=lt, segwit=segwit, ins=ins, outs=outs, wit=wit)
+    except (IndexError, ValueError):
+        r = None
+    _PARSE_CACHE[hexs] = r
+    return r
+
+
+def dsha(b):
+    return hashlib.sha256(hashlib.sha256(b).digest()).digest()
+
+
+def sighash_legacy(tx, idx, code, hashtype=1):
+    b = tx['version'].to_bytes(4, 'little') + _ser_varint(len(tx['ins']))
+    for j, (txid, n, _, seq) in enumerate(tx['ins']):
+        sc = code if j == idx else b''
+        b += bytes.fromhex(txid)[::-1] + n.to_bytes(4, 'little') + _ser_varint(len(sc)) + sc + seq.to_bytes(4, 'little')
+    b += _ser_varint(len(tx['outs']))
+    for v, spk in tx['outs']:
+        b += v.to_bytes(8, 'little') + _ser_varint(len(spk)) + spk
+    return dsha(b + tx['locktime'].to_bytes(4, 'little') + hashtype.to_bytes(4, 'little'))
+
+
+def sighash_bip143(tx, idx, code, value, hashtype=1):
+    prevouts = b''.join(bytes.fromhex(t)[::-1] + n.to_bytes(4, 'little') for t, n, _, _ in tx['ins'])
+    seqs = b''.join(q.to_bytes(4, 'little') for _, _, _, q in tx['ins'])
+    outs = b''.join(v.to_bytes(8, 'little') + _ser_varint(len(spk)) + spk for v, spk in tx['outs'])
+    txid, n, _, seq = tx['ins'][idx]
+    return dsha(tx['version'].to_bytes(4, 'little') + dsha(prevouts) + dsha(seqs) + bytes.fromhex(txid)[::-1] +
+                n.to_bytes(4, 'little') + _ser_varint(len(code)) + code + value.to_bytes(8, 'little') +
+                seq.to_bytes(4, 'little') + dsha(outs) + tx['locktime'].to_bytes(4, 'little') +
+                hashtype.to_bytes(4, 'little'))
+
+
+def script_pushes(sc):
+    """the data pushed by a push-only script (OP_0 pushes the empty string); None when something else occurs"""
+    out = []
+    o = 0
+    try:
+        while o < len(sc):
+            op = sc[o]
+            o += 1
+            if op == 0:
+                out.append(b'')
+                continue
+            if op <= 75:
+                l = op
+            elif op == 76:
+                l = sc[o]
+                o += 1
+            elif op == 77:
+                l = int.from_bytes(sc[o:o + 2], 'little')
+                o += 2
+            else:
+                return None
+            if o + l > len(sc):
+                return None
+            out.append(sc[o:o + l])
+            o += l
+    except IndexError:
+        return None
+    return out
+
+
+def parse_der_sig(sig):
+    """DER signature followed by the hash type byte -> (r, s, hashtype) or None"""
+    try:
+        if len(sig) < 9 or sig[0] != 0x30 or sig[1] != len(sig) - 3 or sig[2] != 2:
+            return None
+        lr = sig[3]
+        if sig[4 + lr] != 2:
+            return None
+        ls = sig[5 + lr]
+        if 6 + lr + ls != len(sig) - 1:
+            return None
+        return int.from_bytes(sig[4:4 + lr], 'big'), int.from_bytes(sig[6 + lr:6 + lr + ls], 'big'), sig[-1]
+    except IndexError:
+        return None
+
+
+def multisig_input_defect(kind, tx, idx, redeem, value, m, keys_in_script):
+    """None when input idx of the serialised transaction satisfies the m-of-n script `redeem` (BIP11/BIP16/BIP141:
+    OP_0 <sig>*m <script>; every signature must match a later key than the one before), else what is wrong"""
+    scriptsig = tx['ins'][idx][2]
+    if kind == 'L':
+        items = script_pushes(scriptsig)
+        if items is None:
+            return 'scriptSig is not push-only'
+    else:
+        if not tx['segwit'] or idx >= len(tx['wit']):
+            return 'no witness data'
+        items = tx['wit'][idx]
+        want_ss = b'' if kind == 'S' else bytes([34]) + b'\x00\x20' + hashlib.sha256(redeem).digest()
+        if scriptsig != want_ss:
+            return 'scriptSig %s is not %s' % (scriptsig.hex() or '(empty)', want_ss.hex() or 'empty')
+    if len(items) < 2 or items[0] != b'':
+        return 'unlocking data does not start with the OP_CHECKMULTISIG dummy'
+    if items[-1] != redeem:
+        return 'script in the unlocking data is not the redeem script of the address being spent'
+    sigs = items[1:-1]
+    if len(sigs) != m:
+        return '%d signature(s) for a %d-of-%d script' % (len(sigs), m, len(keys_in_script))
+    ki = 0
+    for sg in sigs:
+        d = parse_der_sig(sg)
+        if d is None:
+            return 'signature is not DER + hash type'
+        r, s_, ht = d
+        if ht != 1:
+            return 'hash type %d' % ht
+        z = sighash_legacy(tx, idx, redeem) if kind == 'L' else sighash_bip143(tx, idx, redeem, value)
+        z = int.from_bytes(z, 'big')
+        while ki < len(keys_in_script) and not ecdsa_verify(keys_in_script[ki], z, r, s_):
+            ki += 1
+        if ki == len(keys_in_script):
+            return 'a signature matches none of the remaining keys (wrong order, wrong key, or made over other fields)'
+        ki += 1
+    return None
+
+
 # ---------------------------------------------------------------- cases
 def seed_of(rng):
     return bytes(rng.randrange(256) for _ in range(32))
@@ -225,7 +551,8 @@ def special_chains(n, rng):
     return out
 
 
-def gen_cases(rng, tier):
+def gen_cases_v1(rng, tier):
+    """the first-generation stream: every spend created with default parameters (request kind cer)"""
     big = tier == 'thorough'
     cs = []
     mn = [(m, n) for n in (2, 3) for m in range(1, n + 1)]
@@ -296,7 +623,346 @@ def gen_cases(rng, tier):
     return cs
 
 
+# ---------------------------------------------------------------- cases of the second generation (request kind cer2)
+PRIVATE_FORMS = 'MmRr'
+PUBLIC_FORMS = 'Aa'
+DEST_TYPES = 'kswW'
+
+
+VSTEP = (1000000, 10000)     # amounts of the unspent outputs handed to the wallets: 1 coin + 0.01 * row + 0.0001 * ordinal
+
+
+def utxo_value(vstep, row, ordinal):
+    return UTXO_VALUE + vstep[0] * row + vstep[1] * ordinal
+
+
+def spend_total(vstep, rows_txt):
+    used = {}
+    tot = 0
+    for ch in rows_txt:
+        r = int(ch)
+        tot += utxo_value(vstep, r, used.get(r, 0))
+        used[r] = used.get(r, 0) + 1
+    return tot
+
+
+def make_case2(kind_tag, k, m, sort, wallets_spec, rows, chains, spends, seeds, cpath=0, given=None,
+               nw='bitcoinlib_test', afs=None, dests=None, vstep=VSTEP):
+    """wallets_spec: per wallet [(who, form)] in supplied order; rows: [(change, address_index)];
+    spends: per chain dict(rows, rbf, lock, fee, vals, nch, sel); dests: [(type letter, hash bytes)]"""
+    coin = NETWORKS[nw][3]
+    n = len(seeds)
+    masters0 = [derive(s_, []) for s_ in seeds]
+    accounts = [derive(s_, account_path(k, coin)) for s_ in seeds]
+    wl = []
+    for spec in wallets_spec:
+        wl.append(','.join('%d:%s:%s' % (who, f, (masters0[who] if f in 'Mm' else accounts[who]).hex()) for who, f in spec))
+    childs = [[derive_child(s_, k, cpath, idx, ch, coin) for s_ in seeds] for (ch, idx) in rows]
+    addrs = ';'.join('%d/%d/%s' % (ch, idx, ','.join(c.hex() for c in row)) for (ch, idx), row in zip(rows, childs))
+    if given is None:
+        gtxt = '-'
+    elif isinstance(given, int):
+        gtxt = str(given)
+    else:
+        gtxt = ','.join('-' if g is None else str(g) for g in given)
+    afs = afs if afs is not None else '1' * len(wallets_spec)
+    dests = dests or [('k', bytes.fromhex('f2ab63bf20d1fe53da6c9d0d873cc4996846a957'))]
+    sp_txt = ';'.join('%s/%d/%d/%d/%s/%d/%s' % (sp['rows'], sp['rbf'], sp['lock'], sp['fee'],
+                                                 '+'.join(str(v) for v in sp['vals']), sp['nch'], sp['sel'])
+                      for sp in spends)
+    opts = 'nw=%s;afs=%s;bc=%d;dust=%d;uv=%d;vstep=%d:%d;conf=%d;dst=%s;dsh=%s' % (
+        nw, afs, BLOCKCOUNT, DUST, UTXO_VALUE, vstep[0], vstep[1], UTXO_CONFIRMS,
+        '+'.join(destination(nw, t, h)[0] for t, h in dests), '+'.join('%s:%s' % (t, h.hex()) for t, h in dests))
+    req = 'cer2 %s %d %d %s %d %d %s %s %s %s %s %s' % (
+        k, m, 1 if sort else 0, gtxt, coin, cpath, ';'.join(wl), addrs, ';'.join(chains) if chains else '-',
+        sp_txt if chains else '-', opts, ','.join(s_.hex() for s_ in seeds))
+    c = Case(kind_tag, req)
+    c.meta = meta_of_req(req)
+    return c
+
+
+def meta_of_req2(req):
+    t = req.split(' ')
+    k = t[1]
+    wallets, forms = [], []
+    for w in t[7].split(';'):
+        es = [e.split(':') for e in w.split(',')]
+        wallets.append([(int(e[0]), e[1] in PRIVATE_FORMS) for e in es])
+        forms.append(''.join(e[1] for e in es))
+    rows, childs = [], []
+    for a in t[8].split(';'):
+        ch, idx, pubs = a.split('/')
+        rows.append((int(ch), int(idx)))
+        childs.append([bytes.fromhex(x) for x in pubs.split(',')])
+    chains = [] if t[9] == '-' else t[9].split(';')
+    spends = []
+    for sp in ([] if t[10] == '-' else t[10].split(';')):
+        r, rbf, lock, fee, vals, nch, sel = sp.split('/')
+        spends.append(dict(rows=r, rbf=int(rbf), lock=int(lock), fee=int(fee), vals=[int(v) for v in vals.split('+')],
+                           nch=int(nch), sel=sel))
+    opt = dict(e.split('=', 1) for e in t[11].split(';'))
+    nw = opt.get('nw', 'bitcoinlib_test')
+    dests = [destination(nw, e.split(':')[0], bytes.fromhex(e.split(':')[1])) for e in opt['dsh'].split('+')]
+    seeds = [bytes.fromhex(x) for x in t[12].split(',')]
+    return dict(fmt=2, k=k, m=int(t[2]), n=len(seeds), sort=t[3] == '1', wallets=wallets, forms=forms, rows=rows,
+                childs=childs, chains=chains, spends=spends, cpath=int(t[6]), coin=int(t[5]), nw=nw,
+                afs=opt.get('afs', '1' * len(wallets)), dests=dests, seeds=seeds, n_addr=len(rows), given=t[4],
+                vstep=tuple(int(x) for x in opt.get('vstep', '0:0').split(':')))
+
+
+def random_spend(rng, nrows, nw_rows=None, force=None, vstep=VSTEP):
+    """one way of creating the spend; explicit inputs.  force: dict of fixed fields"""
+    force = force or {}
+    nin = force.get('nin') or rng.choice([1, 1, 1, 2, 2, 3])
+    rows = []
+    for _ in range(nin):
+        cand = [r for r in range(nrows) if rows.count(r) < 2]
+        rows.append(rng.choice(cand))
+    if 'rows' in force:
+        rows = [int(ch) for ch in force['rows']]
+    total = spend_total(vstep, ''.join(str(r) for r in rows))
+    rbf = force.get('rbf', 1 if rng.random() < 0.35 else 0)
+    lk = force.get('lockkind', rng.choice('00hht'))
+    lock = 0 if lk == '0' else (rng.choice([1, 2, rng.randrange(3, 800000), 499999999]) if lk == 'h'
+                                else rng.choice([500000000, rng.randrange(1500000000, 1800000000), 4294967294]))
+    fee = force.get('fee', rng.choice([rng.randrange(4000, 20000), rng.randrange(20000, 150000)]))
+    nout = rng.choice([1, 1, 2, 3])
+    mode = force.get('change', rng.choice(['one', 'one', 'one', 'none', 'dust', 'many']))
+    budget = total - fee
+    if mode == 'none':
+        left = 0
+    elif mode == 'dust':
+        left = rng.choice([1, DUST - 1, DUST])
+    elif mode == 'many':
+        left = rng.randrange(40000000, 60000000)
+    else:
+        left = rng.choice([DUST + 1, rng.randrange(2 * DUST, 100000), rng.randrange(100000, budget // 2)])
+    spendable = budget - left
+    vals = []
+    for j in range(nout - 1):
+        v = rng.randrange(DUST + 1, max(DUST + 2, spendable // (nout + 1)))
+        vals.append(v)
+        spendable -= v
+    vals.append(spendable)
+    rng.shuffle(vals)
+    nch = rng.choice([2, 3]) if mode == 'many' else 1
+    return dict(rows=''.join(str(r) for r in rows), rbf=rbf, lock=lock, fee=fee, vals=vals, nch=nch, sel='e')
+
+
+def random_dests(rng, k, nw):
+    types = [t for t in DEST_TYPES if NETWORKS[nw][2] or t in 'ks']
+    return [(rng.choice(types), bytes(rng.randrange(256) for _ in range(32))) for _ in range(3)]
+
+
+def own_position(k, coin, seeds, spec, who):
+    """position of participant `who` among the keys as a wallet sorts them (public bytes of the supplied keys)"""
+    pubs = [(derive(seeds[w], []) if f in 'Mm' else derive(seeds[w], account_path(k, coin)), w) for w, f in spec]
+    return [w for _, w in sorted(pubs)].index(who)
+
+
+def holder_forms(rng, n, perms, plain=False):
+    """wallet w holds participant w's private key; the form of every supplied key is drawn"""
+    out = []
+    for w in range(n):
+        out.append([(who, ('M' if plain else rng.choice(PRIVATE_FORMS)) if who == w else
+                     ('A' if plain else rng.choice(PUBLIC_FORMS))) for who in perms[w]])
+    return out
+
+
+def complete_then_raw(n, m, rng):
+    """m cosigners sign over object hand-offs, then the COMPLETE transaction goes on as raw hex and is sent"""
+    ws = rng.sample(range(n), m)
+    c = 'c%d.s' % ws[0] + ''.join('.o%d.s' % w for w in ws[1:])
+    return c + '.r%d.p' % rng.choice([w for w in range(n) if w != ws[-1]])
+
+
+def sweep_chain(n, m, rng, ch):
+    """m cosigners sign one after the other, every hand-off through channel ch; sent by the last one"""
+    ws = rng.sample(range(n), m)
+    return 'c%d.s' % ws[0] + ''.join('.%s%d.s' % (ch, w) for w in ws[1:]) + '.p'
+
+
+def gen_cases(rng, tier):
+    big = tier == 'thorough'
+    cs = []
+    mn = [(m, n) for n in (2, 3) for m in range(1, n + 1)]
+    nets = {'L': ['bitcoin', 'testnet', 'litecoin', 'dogecoin'], 'P': ['bitcoin', 'testnet', 'litecoin'],
+            'S': ['bitcoin', 'testnet', 'litecoin']}
+    # 1. agreement: holders x permutations of the supplied keys x key forms x networks x rows beyond index 0 / change
+    for k in 'LPS':
+        for n in ((2, 3, 4) if big else (2, 3)):
+            for rep in range(3 if big else 1):
+                seeds = [seed_of(rng) for _ in range(n)]
+                perms = list(itertools.permutations(range(n)))
+                if n == 4:
+                    perms = rng.sample(perms, 8)
+                if big or n == 2:
+                    pairs = [(h, p) for h in range(n) for p in perms]
+                else:   # every permutation once, every holder twice
+                    pairs = [(i % n, p) for i, p in enumerate(perms)]
+                ws = [[(who, rng.choice(PRIVATE_FORMS) if who == h else rng.choice(PUBLIC_FORMS)) for who in p]
+                      for h, p in pairs]
+                nw = rng.choice(nets[k]) if (n == 2 or rep) else 'bitcoinlib_test'
+                rows = [(0, 0), (0, rng.randrange(1, 30)), (1, 0), (1, rng.randrange(1, 12))]
+                cs.append(make_case2('agree', k, max(1, n - 1), True, ws, rows, [], [], seeds, cpath=rng.randrange(n),
+                                     nw=nw))
+    # 1b. every remaining network once per kind: one wallet per holder, random supply orders and forms
+    for k in 'LPS':
+        for nw in (nets[k] if big else rng.sample(nets[k], 2)):
+            n = 3
+            seeds = [seed_of(rng) for _ in range(n)]
+            perms = [rng.sample(range(n), n) for _ in range(n)]
+            cs.append(make_case2('agree_net', k, rng.randrange(1, n + 1), True, holder_forms(rng, n, perms),
+                                 [(0, rng.randrange(0, 50)), (1, rng.randrange(0, 50))], [], [], seeds,
+                                 cpath=rng.randrange(n), nw=nw))
+    # 1c. a watch-only wallet in which the cosigners sign with the child key of ONE address: inputs complete one by one
+    for ki, k in enumerate('LPS'):
+        for rep in range(3 if big else 1):
+            n, m = 3, 2
+            seeds = [seed_of(rng) for _ in range(n)]
+            perms = [rng.sample(range(n), n) for _ in range(n)]
+            ws = holder_forms(rng, n, perms) + [[(who, rng.choice(PUBLIC_FORMS)) for who in rng.sample(range(n), n)]]
+            a, b, c3 = rng.sample(range(n), 3)
+            chains = ['c3.k%d1.k%d1.p.k%d0.k%d0.p' % (a, b, b, c3),                 # last input complete first
+                      'c3.k%d0.k%d0.p.o%d.s.p' % (a, b, c3),                         # first input complete first
+                      'c3.k%d1.o%d.s.p.o%d.s.p' % (a, b, a),                         # one key, then whole wallets
+                      'c%d.s.o3.k%d1.p.k%d0.p' % (a, b, c3),
+                      'c3.k%d1.k%d1.k%d1.p' % (a, b, c3)]                            # three signers, one input
+            rows3 = [(0, 0), (rng.choice([0, 1]), rng.randrange(1, 5))]
+            spends = [random_spend(rng, 2, force={'rows': rng.choice(['01', '001', '011']) if ci != 2 else '01',
+                                                  'lockkind': rng.choice('0h')}) for ci in range(len(chains))]
+            cs.append(make_case2('key_signing', k, m, True, ws, rows3, chains, spends, seeds, cpath=rng.randrange(n),
+                                 given=[None] * n + [rng.randrange(n)], afs='1111',
+                                 dests=random_dests(rng, k, 'bitcoinlib_test')))
+    # 2. ceremonies: all m-of-n, three kinds, random supply orders and key forms, every chain its own spend
+    for k in 'LPS':
+        for (m, n) in mn:
+            for rep in range(4 if big else 1):
+                seeds = [seed_of(rng) for _ in range(n)]
+                perms = [rng.sample(range(n), n) for _ in range(n)]
+                chains = all_chains(n)
+                if not big:
+                    fixed = [c for c in chains if c.count('r') == 0][:2]
+                    chains = fixed + rng.sample(chains, min(len(chains), 8 if n == 3 else 5))
+                sp = special_chains(n, rng)
+                chains = chains + (sp if big else rng.sample(sp, 5))
+                chains = chains + ['c%d.o%d.s.o%d.s.p' % tuple(rng.sample(range(n), 2) + [rng.randrange(n)])]
+                n_raw = len(chains)
+                chains = chains + [complete_then_raw(n, m, rng), complete_then_raw(n, m, rng)]
+                # parameter sweep over short chains: replace_by_fee x locktime kind x channel
+                n_sweep = len(chains)
+                combos = [(r_, l_, c_) for r_ in (0, 1) for l_ in '0ht' for c_ in 'ood']
+                sweep = combos if big else rng.sample(combos, 8)
+                chains = chains + [sweep_chain(n, m, rng, c_) for (_, _, c_) in sweep]
+                rows = [(0, 0), (0, rng.randrange(1, 9)), (rng.choice([0, 1]), rng.randrange(0, 4))]
+                if rows[2] in rows[:2]:
+                    rows[2] = (1, 5)
+                afs = '1' * n if rng.random() < 0.45 else ''.join(rng.choice('01') for _ in range(n))
+                spends = []
+                for ci, ch in enumerate(chains):
+                    f = {}
+                    if ci < 2:      # the two object/dict-only chains: replace-by-fee, then an explicit locktime
+                        f = {'rbf': 1} if ci == 0 else {'rbf': 0, 'lockkind': rng.choice('ht')}
+                    if 'd' in ch and ci >= 2 and rng.random() < 0.5:
+                        f = {'nin': 1}
+                    if ci >= n_raw:
+                        f = {'lockkind': '0' if ci == n_raw else rng.choice('0ht')}
+                    if ci >= n_sweep:
+                        f = {'rbf': sweep[ci - n_sweep][0], 'lockkind': sweep[ci - n_sweep][1]}
+                    spends.append(random_spend(rng, len(rows), force=f))
+                cs.append(make_case2('ceremony', k, m, True, holder_forms(rng, n, perms), rows, chains, spends, seeds,
+                                     cpath=rng.randrange(n), afs=afs, dests=random_dests(rng, k, 'bitcoinlib_test')))
+    # 3. two / three inputs (same address / different addresses): object and dict chains, default-compatible spends
+    for ki, k in enumerate('LPS'):
+        for (m, n) in ([(2, 3), (2, 2), (3, 3), (1, 3)] if big else [(2, 3)]):
+            for inputs in (('00', '01', '011') if big else (('01', '00', '012')[ki],)):
+                seeds = [seed_of(rng) for _ in range(n)]
+                perms = [rng.sample(range(n), n) for _ in range(n)]
+                chains = all_chains(n, 'od', with_send=False)
+                if not big:
+                    chains = rng.sample(chains, 5)
+                chains = [c + '.p' for c in chains]
+                rows = [(0, 0), (0, 1), (1, 0)]
+                spends = [random_spend(rng, 3, force={'rows': inputs, 'rbf': 0}) for _ in chains]
+                cs.append(make_case2('multi_inputs', k, m, True, holder_forms(rng, n, perms, plain=True), rows, chains,
+                                     spends, seeds, dests=random_dests(rng, k, 'bitcoinlib_test')))
+    # 4. sort_keys off: same supply order everywhere (chains), different orders (observation only)
+    for ki, k in enumerate('LPS'):
+        n, m = 3, 2
+        if big or ki != 1:
+            seeds = [seed_of(rng) for _ in range(n)]
+            p = rng.sample(range(n), n)
+            chains = rng.sample(all_chains(n, 'od'), 4 if big else 3)
+            cs.append(make_case2('unsorted_same', k, m, False, holder_forms(rng, n, [p] * n, plain=True), [(0, 0), (0, 2)],
+                                 chains, [random_spend(rng, 2) for _ in chains], seeds, afs='111'))
+        if big or ki == 1:
+            seeds = [seed_of(rng) for _ in range(n)]
+            cs.append(make_case2('unsorted_diff', k, m, False,
+                                 holder_forms(rng, n, [[0, 1, 2], [2, 0, 1], [1, 0, 2]]), [(0, 0), (1, 3)], [], [], seeds))
+    # 5. watch-only wallets (cosigner_id given), a private wallet told its own position; agreement only
+    for k in 'LPS':
+        n = 3
+        seeds = [seed_of(rng) for _ in range(n)]
+        nw = rng.choice(['bitcoinlib_test'] + nets[k])
+        coin = NETWORKS[nw][3]
+        ws = [[(who, rng.choice(PUBLIC_FORMS)) for who in p] for p in ([0, 1, 2], [2, 1, 0])]
+        holder = rng.randrange(n)
+        spec = [(who, rng.choice(PRIVATE_FORMS) if who == holder else rng.choice(PUBLIC_FORMS)) for who in rng.sample(range(n), n)]
+        gv = rng.randrange(n)
+        cs.append(make_case2('watch_only', k, 2, True, ws + [spec], [(0, 0), (1, 1), (0, 6)], [], [], seeds,
+                             given=[gv, gv, own_position(k, coin, seeds, spec, holder)], nw=nw))
+    # 6. inputs chosen by the wallet (select_inputs), min_confirms at the boundary and above it; one funded address
+    for ki, k in enumerate('LPS'):
+        for rep in range(3 if big else 1):
+            n, m = 3, 2
+            seeds = [seed_of(rng) for _ in range(n)]
+            perms = [rng.sample(range(n), n) for _ in range(n)]
+            a, b, c3 = rng.sample(range(n), 3)
+            chains = ['c%d.s.o%d.s' % (a, b), 'c%d.s.d%d.s' % (b, a), 'c%d.s.o%d.s' % (c3, a), 'c%d' % a,
+                      'c%d.s.o%d.s.p' % (b, c3)]
+            spends = []
+            for ci in range(len(chains)):
+                two = ci in (1, 4)
+                fee = rng.randrange(5000, 90000)
+                total = UTXO_VALUE * (2 if two else 1)
+                left = rng.choice([0, DUST, rng.randrange(2 * DUST, 3000000)])
+                vals = [total - fee - left] if not two else [UTXO_VALUE + 1, total - fee - left - UTXO_VALUE - 1]
+                spends.append(dict(rows='00' if two else '0', rbf=1 if ci == 2 else 0, lock=0 if ci != 0 else 650000,
+                                   fee=fee, vals=vals, nch=1,
+                                   sel='a%d' % (UTXO_CONFIRMS + 1 if ci == 3 else rng.choice([1, UTXO_CONFIRMS, 0]))))
+            cs.append(make_case2('selected_inputs', k, m, True, holder_forms(rng, n, perms), [(0, 0)], chains, spends, seeds,
+                                 afs='111', dests=random_dests(rng, k, 'bitcoinlib_test'), vstep=(0, 0)))
+    if big:
+        # larger n: all m, sampled chains (includes the over-signed dict class at 2-of-5)
+        for k in 'LPS':
+            for n in (4, 5):
+                for m in range(1, n + 1):
+                    seeds = [seed_of(rng) for _ in range(n)]
+                    perms = [rng.sample(range(n), n) for _ in range(n)]
+                    chains = rng.sample(all_chains(n, 'od'), 10) + rng.sample(all_chains(n), 10)
+                    rows = [(0, 0), (0, 3), (1, 1)]
+                    cs.append(make_case2('ceremony_big', k, m, True, holder_forms(rng, n, perms), rows, chains,
+                                         [random_spend(rng, 3) for _ in chains], seeds, cpath=rng.randrange(n),
+                                         afs=''.join(rng.choice('011') for _ in range(n)),
+                                         dests=random_dests(rng, k, 'bitcoinlib_test')))
+        # chains on networks without an offline provider (no send there)
+        for k in 'LPS':
+            for nw in nets[k]:
+                n, m = 3, 2
+                seeds = [seed_of(rng) for _ in range(n)]
+                perms = [rng.sample(range(n), n) for _ in range(n)]
+                chains = rng.sample(all_chains(n, 'od', with_send=False), 6)
+                fees = {'fee': rng.randrange(2000000, 9000000)} if nw == 'dogecoin' else {}
+                cs.append(make_case2('ceremony_net', k, m, True, holder_forms(rng, n, perms), [(0, 0), (1, 2)], chains,
+                                     [random_spend(rng, 2, force=dict(fees, lockkind=rng.choice('ht'))) for _ in chains],
+                                     seeds, nw=nw, afs='000', dests=random_dests(rng, k, nw)))
+        cs += gen_cases_v1(rng, 'quick')
+    return cs
+
+
 def meta_of_req(req):
+    if req.startswith('cer2 '):
+        return meta_of_req2(req)
     """rebuild the case description from the request line (replay files carry only the request)"""
     t = req.split(' ')
     wallets = [[(int(e.split(':')[0]), e.split(':')[1] == '1') for e in w.split(',')] for w in t[7].split(';')]
@@ -316,7 +982,7 @@ def model_req(c):
 
 
 def is_trivial(c, out):
-    return out.startswith('CRASH') or out == 'BADREQ' or 'ERR' in out.split(' X:')[0]
+    return out.startswith('CRASH') or out == 'BADREQ' or 'ERR' in out.split(' X:')[0].split(' U:')[0]
 
 
 # ---------------------------------------------------------------- parsing answers
@@ -355,6 +1021,8 @@ def _mask_dups(chain_obs):
 
 def same(c, io, mo):
     _ensure_meta(c)
+    if c.meta.get('fmt') == 2:
+        return same2(c, io, mo)
     pi, pm = parse_answer(io), parse_answer(mo)
     if pi is None or pm is None:
         return io == mo
@@ -441,6 +1109,8 @@ def classify_chain(chain, m):
 
 def prop_check(c, io):
     m = _ensure_meta(c)
+    if m.get('fmt') == 2:
+        return prop_check2(c, io)
     if io.startswith('CRASH') or io == 'BADREQ':
         return 'unexpected answer %r' % io[:160]
     p = parse_answer(io)
@@ -475,9 +1145,433 @@ def prop_check(c, io):
     return None
 
 
+# ================================================================ second generation: committed fields
+def parse_answer2(out):
+    """(wallet part, address cells, unspent outputs per wallet (None in a model answer), observations per chain)"""
+    if not out.startswith('W:'):
+        return None
+    try:
+        w, rest = out[2:].split(' A:', 1)
+        a, x = rest.split(' X:', 1)
+        u = None
+        if ' U:' in a:
+            a, u = a.split(' U:', 1)
+    except ValueError:
+        return None
+    wp = [e.split('/') for e in w.split(';')]
+    ap = [[tuple(cell.split('/', 3)) for cell in row.split(',')] if not row.startswith('ERR') else None for row in a.split(';')]
+    xp = [] if x == '-' else [ch.split(',') for ch in x.split(';')]
+    up = None
+    if u is not None:
+        up = []
+        for wtxt in u.split(';'):
+            if wtxt == '=':
+                up.append(up[0])
+            elif wtxt == 'ERR':
+                up.append(None)
+            else:
+                up.append([[] if r == '-' else [(e.split(':')[0], int(e.split(':')[1]), int(e.split(':')[2]))
+                                                for e in r.split('+')] for r in wtxt.split(',')])
+    return wp, ap, up, xp
+
+
+def split_obs(ob):
+    """state observation '<sigs>=<v>~<raw>~<values>' -> (sigs=v, raw, [(value, redeem hex)]); others -> (ob, None, None)"""
+    if ob.startswith('P1~'):
+        return 'P1', ob[3:], None
+    if '~' not in ob:
+        return ob, None, None
+    head, raw, vals = ob.split('~', 2)
+    return head, raw, [(int(v.split(':')[0]), v.split(':')[1]) for v in vals.split('|')] if vals else []
+
+
+def utxo_index(up):
+    """outpoint -> (row, ordinal, value), from the first wallet's listing"""
+    idx = {}
+    for r, lst in enumerate(up[0] or []):
+        for o, (txid, n, v) in enumerate(lst):
+            idx[(txid, n)] = (r, o, v)
+    return idx
+
+
+def fields_text(m, ap, uidx, raw, vals, spend):
+    """the serialised transaction in the model's vocabulary: version/locktime/prev:seq:value:code|../d0:v+..+cN:total"""
+    tx = parse_tx(raw)
+    if tx is None or vals is None or len(vals) != len(tx['ins']):
+        return 'UNREADABLE'
+    ins = []
+    used = {}
+    for (txid, n, _, seq), (val, red) in zip(tx['ins'], vals):
+        hit = uidx.get((txid, n))
+        if hit is None:
+            ins.append('x:%d:%d:x' % (seq, val))
+            continue
+        row, ordinal, _ = hit
+        if spend['sel'] != 'e':         # the wallet chose: the model numbers the outputs of a row in order of use
+            ordinal = used.get(row, 0)
+            used[row] = ordinal + 1
+        code = row if any(r is not None and r[row][0] == red for r in ap) else 'x'
+        ins.append('%d:%d:%d:%s' % (2 * row + ordinal, seq, val, code))
+    outs = []
+    nreq = len(spend['vals'])
+    for j, (v, spk) in enumerate(tx['outs'][:nreq]):
+        outs.append('d%s:%d' % (j if spk == m['dests'][j % len(m['dests'])][1] else 'x', v))
+    rest = tx['outs'][nreq:]
+    if rest:
+        outs.append('c%d:%d' % (len(rest), sum(v for v, _ in rest)))
+    return '%d/%d/%s/%s' % (tx['version'], tx['locktime'], '|'.join(ins), '+'.join(outs))
+
+
+def same2(c, io, mo):
+    m = _ensure_meta(c)
+    pi, pm = parse_answer2(io), parse_answer2(mo)
+    if pi is None or pm is None:
+        return io == mo
+    if pi[0] != pm[0] or len(pi[1]) != len(pm[1]) or len(pi[3]) != len(pm[3]) or pi[2] is None:
+        return False
+    k, nw = m['k'], m['nw']
+    for ri, rm in zip(pi[1], pm[1]):
+        if ri is None or rm is None or len(ri) != len(rm):
+            return False
+        for (red_i, addr_i, own_i, path_i), (red_m, hash_m, own_m, path_m) in zip(ri, rm):
+            if red_i != red_m or own_i != own_m or not ('/' + path_m).endswith('/' + path_i):
+                return False
+            if hash_m in ('ERR', '-') or addr_i != net_address_of_hash(nw, k, bytes.fromhex(hash_m)):
+                return False
+    if pi[3] and (not pi[2] or pi[2][0] is None):
+        return False
+    uidx = utxo_index(pi[2]) if pi[3] else {}
+    for ci, (oi, om) in enumerate(zip(pi[3], pm[3])):
+        if 'EXC' in om:
+            om = om[:om.index('EXC') + 1]
+        oi = ['EXC' if o.startswith('EXC') else o for o in oi]
+        if len(oi) != len(om):
+            return False
+        hi, hm = [], []
+        for a, b in zip(oi, om):
+            ha, raw, vals = split_obs(a)
+            hb, fb, _ = split_obs(b + '~') if '~' in b else (b, None, None)
+            hi.append(ha)
+            hm.append(hb)
+            if raw is not None and ha != 'P1':
+                if fb is None or fields_text(m, pi[1], uidx, raw, vals, m['spends'][ci]) != fb:
+                    return False
+        if _mask_dups(hi) != _mask_dups(hm):
+            return False
+    return True
+
+
+# ---------------------------------------------------------------- oracle for the second generation
+def walk_chain2(chain, wallets, rows='0'):
+    """(op, signers before, signers after, wallet the transaction is in) for every op; every op yields an observation.
+    The signers are those of the LEAST signed input (kPR signs only the inputs that spend address row R)."""
+    per_in = [set() for _ in rows]
+    cur = None
+    out = []
+
+    def least():
+        return set(min(per_in, key=len))
+    for o in chain.split('.'):
+        before = least()
+        if o[0] == 'c':
+            cur = int(o[1:])
+        elif o == 's':
+            for who, pr in wallets[cur]:
+                if pr:
+                    for s_ in per_in:
+                        s_.add(who)
+        elif o[0] == 'k':
+            for s_, r in zip(per_in, rows):
+                if r == o[2]:
+                    s_.add(int(o[1]))
+        elif o[0] in 'odr':
+            cur = int(o[1:])
+        out.append((o, before, least(), cur))
+    return out
+
+
+def spec_sequence(rbf, locktime):
+    """BIP125: a sequence below 0xfffffffe signals replaceability; nLockTime is honoured only if some input is not
+    final (0xffffffff).  The library documents 0xfffffffd for replace_by_fee."""
+    return SEQ_RBF if rbf else (SEQ_LOCKTIME if locktime else SEQ_FINAL)
+
+
+def classify2(chain, pos, m, spend):
+    """decided from the case alone: the first recorded class met by the ops up to observation `pos`"""
+    steps = walk_chain2(chain, m['wallets'], spend['rows'])
+    creator = steps[0][3]
+    lock = spend['lock'] if spend['lock'] else (BLOCKCOUNT if m['afs'][creator] == '1' else 0)
+    seq = spec_sequence(spend['rbf'], lock)
+    nin = len(spend['rows'])
+    for (o, before, after, cur) in steps[:pos + 1]:
+        imp_default = SEQ_LOCKTIME if m['afs'][cur] == '1' else SEQ_FINAL
+        if o[0] == 'r':
+            if 0 < len(before) < m['m']:
+                return 'raw_handoff_partial'
+        if o[0] == 'd':
+            if (nin >= 2 and 0 < len(before) < m['m']) or len(before) > m['m']:
+                return 'dict_handoff_untagged'
+    return None
+
+
+_CHANGE_CACHE = {}
+
+
+def is_own_change_script(m, spk, order=None):
+    """is spk the address of the cosigners' m-of-n script on the change branch (any cosigner index for the purpose-45
+    structure, address index below 8 + 3 per chain of the case: every spend that is sent uses up its change keys)?
+    order: the participants in script order when sort_keys is off"""
+    key = (tuple(m['seeds']), m['k'], m['coin'], m['m'], tuple(order or ()))
+    known = _CHANGE_CACHE.setdefault(key, {'scripts': set(), 'done': set()})
+    if spk in known['scripts']:
+        return True
+    for idx in range(8 + 3 * len(m['chains'])):
+        for cp in (range(m['n']) if m['k'] == 'L' else [0]):
+            if (cp, idx) in known['done']:
+                continue
+            known['done'].add((cp, idx))
+            pubs = [derive_child(s_, m['k'], cp, idx, 1, m['coin']) for s_ in m['seeds']]
+            if order:
+                ks = [pubs[w] for w in order]
+                sc = bytes([80 + m['m']]) + b''.join(bytes([len(x)]) + x for x in ks) + bytes([80 + len(ks), 0xae])
+            else:
+                sc = spec_script(m['m'], pubs)
+            known['scripts'].add(spec_spk(m['k'], sc))
+            if spk in known['scripts']:
+                return True
+    return False
+
+
+def row_script(m, ap, row):
+    """(redeem script, keys in script order) the funds of an address row are locked to"""
+    if m['sort']:
+        return spec_script(m['m'], m['childs'][row]), sorted(m['childs'][row])
+    cell = next(r for r in ap if r is not None)[row]
+    red = bytes.fromhex(cell[0])
+    return red, [m['childs'][row][int(w)] for w in cell[2].split('.')]
+
+
+def tx_defect(m, ap, uidx, tx):
+    """None when every input of the serialised transaction satisfies the script of the output it spends"""
+    for i, (txid, n, _, _) in enumerate(tx['ins']):
+        hit = uidx.get((txid, n))
+        if hit is None:
+            return 'input %d spends %s:%d, not an unspent output of the cosigners' % (i, txid[:12], n)
+        red, keys = row_script(m, ap, hit[0])
+        d = multisig_input_defect(m['k'], tx, i, red, hit[2], m['m'], keys)
+        if d:
+            return 'input %d: %s' % (i, d)
+    return None
+
+
+def creation_defect(m, ap, up, uidx, creator, spend, tx, vals):
+    """what the freshly created transaction gets wrong with respect to the request (None: nothing)"""
+    afs = m['afs'][creator] == '1'
+    if tx['version'] not in (1, 2):
+        return 'version %d' % tx['version']
+    if spend['lock']:
+        if tx['locktime'] != spend['lock']:
+            return 'locktime %d requested, transaction carries %d' % (spend['lock'], tx['locktime'])
+    elif tx['locktime'] not in ((BLOCKCOUNT, BLOCKCOUNT + 1) if afs else (0,)):
+        return 'locktime %d with anti_fee_sniping %s (block height %d)' % (tx['locktime'], afs, BLOCKCOUNT)
+    seqs = [q for _, _, _, q in tx['ins']]
+    if spend['rbf'] and any(q != SEQ_RBF for q in seqs):
+        return 'replace_by_fee requested, sequences %s' % [hex(q) for q in seqs]
+    if not spend['rbf'] and any(q < SEQ_LOCKTIME for q in seqs):
+        return 'replace_by_fee not requested but sequences %s signal it (BIP125)' % [hex(q) for q in seqs]
+    if tx['locktime'] and all(q == SEQ_FINAL for q in seqs):
+        return 'locktime %d is not enforceable: every input is final' % tx['locktime']
+    outpoints = [(t, n) for t, n, _, _ in tx['ins']]
+    if len(set(outpoints)) != len(outpoints) or any(o not in uidx for o in outpoints):
+        return 'inputs are not distinct unspent outputs of the wallet'
+    if spend['sel'] == 'e':
+        used = {}
+        want = []
+        for ch in spend['rows']:
+            r = int(ch)
+            u = up[creator][r][used.get(r, 0)]
+            used[r] = used.get(r, 0) + 1
+            want.append((u[0], u[1]))
+        if outpoints != want:
+            return 'inputs are not the requested outpoints in the requested order'
+    for i, ((t, n), (val, red)) in enumerate(zip(outpoints, vals)):
+        row, _, uval = uidx[(t, n)]
+        if val != uval:
+            return 'input %d: amount %d held for an output of %d' % (i, val, uval)
+        if red != row_script(m, ap, row)[0].hex():
+            return 'input %d: script code is not the redeem script of the address it spends' % i
+    total_in = sum(uidx[o][2] for o in outpoints)
+    nreq = len(spend['vals'])
+    if len(tx['outs']) < nreq:
+        return 'requested outputs missing'
+    for j, (v, spk) in enumerate(tx['outs'][:nreq]):
+        if v != spend['vals'][j] or spk != m['dests'][j % len(m['dests'])][1]:
+            return 'output %d is not the requested (amount, destination)' % j
+    change = tx['outs'][nreq:]
+    left = total_in - sum(spend['vals']) - spend['fee']
+    if left < 0:
+        return 'transaction created although the inputs do not cover outputs and fee'
+    if left <= DUST:
+        if change:
+            return 'change output for a remainder of %d (dust limit %d)' % (left, DUST)
+    else:
+        if len(change) != spend['nch']:
+            return '%d change output(s), %d requested' % (len(change), spend['nch'])
+        if sum(v for v, _ in change) != left:
+            return 'change %d, but inputs - outputs - fee = %d' % (sum(v for v, _ in change), left)
+        if any(v <= DUST for v, _ in change):
+            return 'a change output at or below the dust limit'
+        order = None
+        if not m['sort']:       # supplied order decides: the order this wallet uses for its first address row
+            order = [int(w) for w in ap[creator][0][2].split('.')]
+        for v, spk in change:
+            if not is_own_change_script(m, spk, order):
+                return 'change of %d does not go to an address of the cosigners\' change branch' % v
+    return None
+
+
+def field_diff(tx0, vals0, tx, vals):
+    """first committed field in which two serialisations differ"""
+    if tx['version'] != tx0['version']:
+        return 'version %d -> %d' % (tx0['version'], tx['version'])
+    if tx['locktime'] != tx0['locktime']:
+        return 'locktime %d -> %d' % (tx0['locktime'], tx['locktime'])
+    if len(tx['ins']) != len(tx0['ins']):
+        return 'number of inputs %d -> %d' % (len(tx0['ins']), len(tx['ins']))
+    for i, (a, b) in enumerate(zip(tx0['ins'], tx['ins'])):
+        if (a[0], a[1]) != (b[0], b[1]):
+            return 'input %d outpoint %s:%d -> %s:%d' % (i, a[0][:12], a[1], b[0][:12], b[1])
+        if a[3] != b[3]:
+            return 'input %d sequence 0x%08x -> 0x%08x' % (i, a[3], b[3])
+    if tx['outs'] != tx0['outs']:
+        return 'outputs %s -> %s' % ([(v, s_.hex()[:16]) for v, s_ in tx0['outs']], [(v, s_.hex()[:16]) for v, s_ in tx['outs']])
+    if vals is not None and vals0 is not None:
+        for i, (a, b) in enumerate(zip(vals0, vals)):
+            if a[0] != b[0]:
+                return 'input %d amount %d -> %d' % (i, a[0], b[0])
+            if a[1] != b[1]:
+                return 'input %d script code changed' % i
+    return None
+
+
+def chain_failures2(c, io):
+    """(chain, position, text, class) for the first observation of every chain that contradicts the property"""
+    m = _ensure_meta(c)
+    p = parse_answer2(io)
+    if p is None or (m['chains'] and (p[2] is None or not p[2] or p[2][0] is None)):
+        return [(None, 0, 'unexpected answer %r' % io[:160], None)]
+    wp, ap, up, xp = p
+    fails = []
+    uidx = utxo_index(up) if m['chains'] else {}
+    for ci, (chain, obs) in enumerate(zip(m['chains'], xp)):
+        spend = m['spends'][ci]
+        steps = walk_chain2(chain, m['wallets'], spend['rows'])
+
+        def fail(pos, text):
+            fails.append((chain, pos, text, classify2(chain, pos, m, spend)))
+        starved = spend['sel'] != 'e' and int(spend['sel'][1:]) > UTXO_CONFIRMS
+        if starved:
+            if obs != ['EXC:WalletError']:
+                fail(0, 'min_confirms=%s with outputs of %d confirmations: expected a refusal, got %s'
+                     % (spend['sel'][1:], UTXO_CONFIRMS, ','.join(obs)[:80]))
+            continue
+        if len(obs) != len(steps) or any(o.startswith('EXC') for o in obs):
+            fail(len(obs) - 1, 'ceremony raised / stopped early: %s' % ','.join(o[:40] for o in obs)[-100:])
+            continue
+        tx0 = vals0 = None
+        for pos, ((o, before, after, cur), ob) in enumerate(zip(steps, obs)):
+            head, raw, vals = split_obs(ob)
+            want = len(after) >= m['m']
+            tx = parse_tx(raw) if raw is not None else None
+            if o == 'p':
+                got = head == 'P1'
+                if got != want:
+                    fail(pos, 'send() pushed=%s with %d distinct signer(s) of %d required on the least signed input' % (got, len(after), m['m']))
+                    break
+                if got:
+                    if tx is None:
+                        fail(pos, 'pushed transaction is unreadable')
+                        break
+                    d = field_diff(tx0, None, tx, None) or tx_defect(m, ap, uidx, tx)
+                    if d:
+                        fail(pos, 'pushed transaction: %s' % d)
+                        break
+                continue
+            got = head.split('=')[1]
+            if tx is None or vals is None or len(vals) != len(tx['ins']):
+                fail(pos, 'after %s: serialised transaction unreadable' % o)
+                break
+            if pos == 0:
+                tx0, vals0 = tx, vals
+                d = creation_defect(m, ap, up, uidx, cur, spend, tx, vals)
+                if d:
+                    fail(pos, 'created spend: %s' % d)
+                    break
+            else:
+                d = field_diff(tx0, vals0, tx, vals)
+                if d:
+                    fail(pos, 'after %s the transaction is no longer the one that was created: %s' % (o, d))
+                    break
+            if got not in ('0', '1'):
+                fail(pos, 'verified and verify() differ (%s)' % head)
+                break
+            if (got == '1') != want:
+                fail(pos, 'after %s: verified=%s with %d distinct signer(s) of %d required on the least signed input' % (o, got, len(after), m['m']))
+                break
+            if got == '1':
+                d = tx_defect(m, ap, uidx, tx)
+                if d:
+                    fail(pos, 'after %s: verified, but the serialised transaction does not satisfy the script: %s' % (o, d))
+                    break
+    return fails
+
+
+def prop_check2(c, io):
+    m = _ensure_meta(c)
+    if io.startswith('CRASH') or io == 'BADREQ':
+        return 'unexpected answer %r' % io[:160]
+    p = parse_answer2(io)
+    if p is None:
+        return 'unexpected answer %r' % io[:160]
+    wp, ap, up, xp = p
+    if any(r is None for r in ap) or any(w[0] == 'ERR' for w in wp):
+        return 'a cosigner wallet could not be created: %s' % io[:120]
+    # (a) all cosigner wallets derive the same redeem script and address for the same path
+    same_supply = all(w == m['wallets'][0] for w in m['wallets'])
+    if m['sort'] or same_supply:
+        for j, (ch, idx) in enumerate(m['rows']):
+            cells = set((r[j][0], r[j][1]) for r in ap)
+            if len(cells) != 1:
+                return 'cosigner wallets disagree on redeem script / address for row %d (change %d, index %d): %s' % (
+                    j, ch, idx, sorted(cells)[:2])
+            if m['sort']:
+                sc = spec_script(m['m'], m['childs'][j])
+                red, addr = next(iter(cells))
+                if red != sc.hex():
+                    return 'redeem script is not the BIP67-ordered BIP11 script of the cosigners\' child keys (row %d)' % j
+                if addr != net_spec_address(m['nw'], m['k'], sc):
+                    return 'address %s is not the %s %s address of the redeem script' % (addr, m['nw'], KINDS[m['k']])
+            paths = set(r[j][3] for r in ap)
+            want = '/' + path_text(m['k'], m['cpath'], idx, ch, m['coin'])
+            # a wallet that holds only account-level keys reports the path relative to them; wallets of one depth agree
+            if not all(want.endswith('/' + p_) for p_ in paths):
+                return 'key path differs from the documented structure: %s' % sorted(paths)
+            for depth in (True, False):      # wallets whose own key is a depth-0 private key / all others
+                ps = set(r[j][3] for r, fo in zip(ap, m['forms']) if any(f in 'Mm' for f in fo) == depth)
+                if len(ps) > 1:
+                    return 'key path differs between cosigner wallets: %s' % sorted(ps)
+    if (m['sort'] or same_supply) and up is not None and len(set(repr(u) for u in up if u is not None)) > 1:
+        return 'cosigner wallets see different unspent outputs for the same addresses'
+    # (b) valid and pushed exactly when at least m distinct cosigners have signed; the spend stays the spend
+    f = chain_failures2(c, io)
+    if f:
+        return '%s [chain %s, step %d]' % (f[0][2], f[0][0], f[0][1])
+    return None
+
+
 def _known(cls):
     def pred(c, io, mo):
-        f = chain_failures(c, io)
+        f = chain_failures2(c, io) if _ensure_meta(c).get('fmt') == 2 else chain_failures(c, io)
         return bool(f) and all(x[3] is not None for x in f) and any(x[3] == cls for x in f) and \
             prop_check_agreement_only(c, io) is None
     return pred
@@ -498,10 +1592,21 @@ KNOWN_CLASSES = {
 }
 
 
+_KNOWN_ANSWERS = {}
+
+
 def reproduce_known(entry, rundir):
-    from core import run_impl
-    rc, out, err = run_impl(IMPL, [entry['witness']['request']], rundir)
-    return len(out) == 1 and out[0] == entry['witness']['impl_answer']
+    """all recorded witnesses are replayed in ONE adapter run (its worker pool answers them side by side)"""
+    from core import run_impl, load_known
+    req = entry['witness']['request']
+    if req not in _KNOWN_ANSWERS:
+        reqs = [e['witness']['request'] for e in load_known(PROP) if e.get('status') == 'known' and 'witness' in e]
+        if req not in reqs:
+            reqs.append(req)
+        rc, out, err = run_impl(IMPL, reqs, rundir)
+        if len(out) == len(reqs):
+            _KNOWN_ANSWERS.update(zip(reqs, out))
+    return _KNOWN_ANSWERS.get(req) == entry['witness']['impl_answer']
 
 
 # ---------------------------------------------------------------- extraction cross-check
@@ -518,7 +1623,68 @@ def _coq_sig(tok):
     return '{| sg_by := %s; sg_tag := %s |}' % (by, 'None' if tag == '-' else 'Some %s' % tag)
 
 
+def golden2(c, mo):
+    """cer2: redeem script of wallet 0 / row 0, and the fields of the first chain's spend as created"""
+    p = parse_answer2(mo)
+    if p is None:
+        return None
+    m = _ensure_meta(c)
+    wp, ap, _, xp = p
+    toks = c.req.split(' ')
+    ks = []
+    for e in toks[7].split(';')[0].split(','):
+        who, form, hexm = e.split(':')
+        ks.append('({| co_master := %s; co_private := %s; co_who := %s |}, %s)' % (
+            _coq_bytes(bytes.fromhex(hexm)), 'true' if form in PRIVATE_FORMS else 'false', who,
+            _coq_bytes(m['childs'][0][int(who)])))
+    red = ap[0][0][0]
+    lhs = ['lib_wallet_redeemscript [%s] %d %s' % ('; '.join(ks), m['m'], 'true' if m['sort'] else 'false')]
+    rhs = ['None' if red == 'ERR' else 'Some ' + _coq_bytes(bytes.fromhex(red))]
+    if m['chains'] and xp:
+        sp = m['spends'][0]
+        creator = int(m['chains'][0].split('.')[0][1:])
+        used = {}
+        ins = []
+        for ch in sp['rows']:
+            r = int(ch)
+            ins.append('(%d, %d, %d)' % (2 * r + used.get(r, 0), utxo_value(m['vstep'], r, used.get(r, 0)), r))
+            used[r] = used.get(r, 0) + 1
+        first = xp[0][0]
+        want = None
+        if first == 'EXC':
+            want = 'None'
+        elif '~' in first:
+            ver, lock, itxt, otxt = first.split('~', 1)[1].split('/')
+            outs = []
+            ok = True
+            for o in otxt.split('+'):
+                d, v = o.split(':')
+                if d[0] == 'd':
+                    outs.append('{| to_dest := %s; to_value := %s |}' % (d[1:], v))
+                elif d == 'c1':
+                    outs.append('{| to_dest := -1; to_value := %s |}' % v)
+                else:
+                    ok = False
+            if ok:
+                want = 'Some {| tf_version := %s; tf_locktime := %s; tf_ins := [%s]; tf_outs := [%s] |}' % (
+                    ver, lock, '; '.join('{| ti_prev := %s; ti_seq := %s; ti_value := %s; ti_code := %s |}' % tuple(i.split(':'))
+                                         for i in itxt.split('|')), '; '.join(outs))
+        if want:
+            lhs.append('lib_create_fields {| ev_blockcount := %d; ev_dust := %d; ev_confirms := %d |} %s '
+                       '{| sp_rbf := %s; sp_locktime := %d; sp_fee := %d; sp_outs := [%s]; sp_nchange := %d%%nat; '
+                       'sp_ins := [%s]; sp_minconf := %s |}' % (
+                           BLOCKCOUNT, DUST, UTXO_CONFIRMS, 'true' if m['afs'][creator] == '1' else 'false',
+                           'true' if sp['rbf'] else 'false', sp['lock'], sp['fee'], '; '.join(str(v) for v in sp['vals']),
+                           sp['nch'], '; '.join(ins), 'None' if sp['sel'] == 'e' else 'Some %s' % sp['sel'][1:]))
+            rhs.append(want)
+    if len(lhs) == 1:
+        return '%s = %s' % (lhs[0], rhs[0])
+    return '(%s, %s) = (%s, %s)' % (lhs[0], lhs[1], rhs[0], rhs[1])
+
+
 def golden(c, mo):
+    if _ensure_meta(c).get('fmt') == 2:
+        return golden2(c, mo)
     p = parse_answer(mo)
     if p is None:
         return None
